@@ -36,6 +36,8 @@ func runC09(e *Env) {
 	ruleC09Sem(e)
 	e.S.Floor("C09.comp", 1)
 	e.S.Floor("C09.valid", 1)
+	ruleNoMatchRejects(e, "C09.reject", e.Fn("C09.reject", "date", "DefaultParser"))
+	e.S.Floor("C09.reject", 1)
 	ruleErrZero(e, "C09.errzero", "date")
 	ruleWrap(e, "C09.wrap", "date")
 	ruleLimitAccept(e, "C09.limit", "date")
